@@ -332,6 +332,18 @@ class FactBase:
                 self.records.setdefault(r['q'], r)
             for v in d.get('vars', []):
                 self.vars.setdefault(v['q'], v)
+        # extracted helpers of the engine step functions are inlined (sa/inline.py) so that path rules see one body
+        from . import inline
+        self.inlined = {}
+        for q in inline.ROOTS:
+            for fn in list(self.byq.get(q, [])):
+                d2 = inline.inline_root(self, fn)
+                if d2 is not None:
+                    nf = Func(d2)
+                    nf.tu = fn.tu
+                    self.funcs[fn.m] = nf
+                    self.byq[q] = [nf if x is fn else x for x in self.byq[q]]
+                    self.inlined[q] = d2['inlined']
         self.load_s = time.time() - t0
         self._src = {}
         # class hierarchy
